@@ -6,6 +6,7 @@
 package main
 
 import (
+	"crypto/sha256"
 	"encoding/json"
 	"fmt"
 	"io"
@@ -57,6 +58,16 @@ func dumpLine(tag string, d *db.DB) {
 	mark(tag + " " + string(b))
 }
 
+// fileLine reports what is on disk right now (before any retry rewrites it).
+func fileLine(path string) {
+	b, err := os.ReadFile(path)
+	if err != nil {
+		mark("FILE absent")
+		return
+	}
+	mark(fmt.Sprintf("FILE %x", sha256.Sum256(b)))
+}
+
 func main() {
 	signal.Ignore(syscall.SIGXFSZ)
 	if len(os.Args) < 2 {
@@ -95,6 +106,7 @@ func main() {
 		b, _ := json.Marshal(out)
 		mark("RESULT " + string(b))
 		restore()
+		fileLine(path)
 		if d != nil {
 			dumpLine("DUMP", d)
 		} else {
